@@ -296,8 +296,10 @@ impl Tables {
                     env.sub = (vi as u64) << 32 | (t as u64) << 8 | fi as u64;
                     let b = &full[..t];
                     let is_full = t == full.len();
-                    let deep = (dtl >> 2 == 0 && stl >> 2 == 0) || path.len() <= 128;
-                    let hm = Mode { sweep: true, full: true, mut1: if is_full { Mut1::Light } else { Mut1::None }, seq: 0, boxed: true, deep };
+                    // every accessor on the exact-size and on the complete buffer; the allocating /
+                    // formatting ones (Debug, to_model ...) where the path is short or in the reduced cube
+                    let deep = path.len() <= 128 || (pt == 1 && in_reduced(seg));
+                    let hm = Mode { sweep: true, full: t == natural || is_full, mut1: if is_full { Mut1::Light } else { Mut1::None }, seq: 0, boxed: true, deep };
                     let pm = Mode { sweep: true, full: false, mut1: Mut1::None, seq: 0, boxed: true, deep: false };
                     exercise::<r::KHdr>(env, b, hm);
                     exercise::<r::KRaw>(env, b, pm);
